@@ -84,6 +84,15 @@ func genCase(t *rapid.T) Case {
 		c.Corrupt = ""
 		return c
 	}
+	if rapid.IntRange(0, 5).Draw(t, "small-limit?") == 0 && len(stream) > 300 {
+		c.Limit = rapid.SampledFrom([]int{256, 1000, 4096}).Draw(t, "limit")
+		k := c.Limit - rapid.IntRange(0, 20).Draw(t, "below-limit")
+		for n := 0; n+k < len(stream); n += k {
+			c.Chunks = append(c.Chunks, k)
+		}
+		// (the rest, shorter than k, goes into the last message)
+		return c
+	}
 	switch rapid.IntRange(0, 7).Draw(t, "chunking") {
 	case 0: // one message
 	case 1: // one row per message (header with the first row)
